@@ -588,8 +588,8 @@ MUTANTS = [
     ('cmp-vs-tw', 'miasmx/arch/ppc_arch.py', "namedct = {'CMP':0, 'CMPL':32}", "namedct = {'CMP':4, 'CMPL':32}", 'C18.D2'),
     ('and-swap-names', 'miasmx/arch/ppc_arch.py', "namedct = {'AND':28, 'ANDC':60,", "namedct = {'AND':60, 'ANDC':28,", 'C18.D5'),
     ('lwz-primary', 'miasmx/arch/ppc_arch.py', "class ppc_lwz(ppc_lbz):\n    mask_list = [bm_int100000,", "class ppc_lwz(ppc_lbz):\n    mask_list = [bm_int100001,", 'C18.D2'),
-    ('extsh-set-width', 'miasmx/arch/ppc_arch.py', '{"fbits":namedct.values(), \'l\':10})}\n\n    strname = dict((x[1], x[0]) for x in namedct.items())\n\n    do_args = [(\'ra\',reg), (\'rs\',reg)]\n\n    def rc2str',
-     '{"fbits":namedct.values()})}\n\n    strname = dict((x[1], x[0]) for x in namedct.items())\n\n    do_args = [(\'ra\',reg), (\'rs\',reg)]\n\n    def rc2str', 'C18.D'),
+    ('extsh-set-width', 'miasmx/arch/ppc_arch.py', '{"fbits":namedct.values(), \'l\':10})}\n\n    strname = dict((x[1], x[0]) for x in namedct.items())\n\n    do_args = [(\'ra\',reg), (\'rs\',reg)]\n\n    @classmethod',
+     '{"fbits":namedct.values()})}\n\n    strname = dict((x[1], x[0]) for x in namedct.items())\n\n    do_args = [(\'ra\',reg), (\'rs\',reg)]\n\n    @classmethod', 'C18.D'),
     ('offs-pair', 'miasmx/arch/ppc_arch.py', "        v = (self.offs>>2)&0xffffff\n", "        v = (self.offs>>1)&0xffffff\n", 'C18.D3'),
     ('srawi-name', 'miasmx/arch/ppc_arch.py', "{\"fbits\":[824], 'l':10}", "{\"fbits\":[792], 'l':10}", 'C18.D'),
     ('stw-name', 'miasmx/arch/ppc_arch.py', "    namestr = ['STW']", "    namestr = ['STH']", 'C18.D5'),
